@@ -5,9 +5,11 @@ import (
 	"fmt"
 	"os"
 	"sync"
+	"time"
 
 	"verif/internal/hx"
 	"verif/internal/ref"
+	"verif/internal/tlc"
 )
 
 // writerObs builds the XzObs "writer" observation for one emitted stream.
@@ -29,8 +31,9 @@ func writerObs(g XZCfg, run XZRun, s ref.XZStream) map[string]any {
 
 // C02: everything the writer emits is a valid .xz file.
 func C02(c *hx.Ctx) {
-	c.Rule = "the case space of C01 with a different seed stream; every emitted stream is parsed and decoded by the independent reference (and xz-utils when installed), its layout is judged by TLC against XzFormat.WriterStreamOk (header/footer/index/backward/padding/check consistency, dictionary code, block sizes, distances <= declared dictionary, chunk limits); non-trivial = multi-block or multi-chunk stream; plus TLC validation (TraceLzma) of the operations of sampled emitted blocks with the window bounded by the declared dictionary size"
+	c.Rule = "the case space of C01 with a different seed stream; every emitted stream is parsed and decoded by the independent reference (and xz-utils when installed), its layout is judged by TLC against XzFormat.WriterStreamOk (whose block-split formula is a checked lemma of the code-shaped XzWriter life cycle), the call history with per-call results and the parsed block list is validated as a trace (TraceXzWriter); (header/footer/index/backward/padding/check consistency, dictionary code, block sizes, distances <= declared dictionary, chunk limits); non-trivial = multi-block or multi-chunk stream; plus TLC validation (TraceLzma) of the operations of sampled emitted blocks with the window bounded by the declared dictionary size"
 	c.Assumptions = []string{"TLC (XzObs/XzFormat)", "internal/ref parser+decoder (independent of /repo)", "xz-utils only as an optional second judge"}
+	c.DesignCheck(tlc.Opts{Module: "XzWriter", Cfg: "XzWriter_mc.cfg", Timeout: 3 * time.Minute}, []string{"BeginWrite", "WriteAfterClose", "Fill", "Roll", "NewBlk", "BeginClose", "CloseAfterClose", "Index", "Footer"})
 	cases := xzCases(c, c.Seed+7777)
 	if len(cases) == 0 {
 		return
@@ -39,6 +42,8 @@ func C02(c *hx.Ctx) {
 	var mu sync.Mutex
 	obs := &obsBatch{}
 	ops := &opsBatch{}
+	var xzTr bytes.Buffer
+	xzTrN := 0
 	type kept struct {
 		sink, plain []byte
 		idx         int
@@ -60,6 +65,17 @@ func C02(c *hx.Ctx) {
 		c.Count(1, nt)
 		if !ok {
 			return
+		}
+		if i%7 == 0 {
+			var bl []int
+			for _, b := range xr.Streams[0].Blocks {
+				bl = append(bl, b.USize)
+			}
+			t := xzTrace(cs.G, run, bl)
+			mu.Lock()
+			xzTr.Write(t)
+			xzTrN++
+			mu.Unlock()
 		}
 		if n := len(run.Written); n > 0 && n <= 20000 {
 			// operation level: every operation of every block must be enabled in Lzma.tla with the
@@ -102,6 +118,8 @@ func C02(c *hx.Ctx) {
 		}
 	}
 	c.Extra["op_traces_validated"] = ops.cases
+	validateXZTraces(c, xzTr.Bytes(), xzTrN)
+	c.Extra["xzwriter_call_traces_validated"] = xzTrN
 	bad, ok := obs.validate(c)
 	if ok {
 		for _, t := range bad {
